@@ -250,6 +250,7 @@ def handle (j : Json) : Json :=
     ("echo", valOut x),
     ("inDomain", Json.bool (inDomain cfg 0 T x)),
     ("setOfContainers", Json.bool T.setOfContainers),
+    ("declChecked", Json.bool (match T with | .data fs _ => declChecked (fs.map (·.1)) | _ => true)),
     ("hasInf", Json.bool x.hasInf),
     ("enc", Json.str (resTag enc))]
   match enc with
